@@ -76,6 +76,7 @@ macro_rules! klf_instance {
         #[kani::proof]
         #[kani::unwind(14)]
         #[kani::stub(verif_support::reexp::catch_unwind, verif_support::stub_cu)]
+        #[kani::stub(crate::parameters::file_spec::TimestampCfg::get_timestamp, crate::parameters::file_spec::verif_harness::cut_get_timestamp)]
         #[kani::stub(list_of_log_and_compressed_files, stub_listing)]
         #[kani::stub(std::fs::remove_file, stub_remove_file)]
         fn $name() {
@@ -104,6 +105,7 @@ klf_instance!(c07_keep_log_files_n4_fault, 4, true);
 #[kani::proof]
 #[kani::unwind(14)]
 #[kani::stub(verif_support::reexp::catch_unwind, verif_support::stub_cu)]
+#[kani::stub(crate::parameters::file_spec::TimestampCfg::get_timestamp, crate::parameters::file_spec::verif_harness::cut_get_timestamp)]
 #[kani::stub(list_of_log_and_compressed_files, stub_listing)]
 #[kani::stub(std::fs::remove_file, stub_remove_file)]
 fn c07_never() {
@@ -165,6 +167,7 @@ macro_rules! resume_instance {
         #[kani::proof]
         #[kani::unwind(14)]
         #[kani::stub(verif_support::reexp::catch_unwind, verif_support::stub_cu)]
+        #[kani::stub(crate::parameters::file_spec::TimestampCfg::get_timestamp, crate::parameters::file_spec::verif_harness::cut_get_timestamp)]
         #[kani::stub(list_of_log_and_compressed_files, stub_listing_after_kill)]
         #[kani::stub(std::fs::remove_file, stub_remove_file)]
         fn $name() {
